@@ -386,8 +386,8 @@ Section ProcessDom.
       do inls <- (if use_doc_css then inline_styles attrs else Ok []);
       let computed := computed_style sd me inls in
       match ws_val (c_display (cs_core computed)) with
-      | Some _ => Ok None
-      | None =>
+      | Some true => Ok None
+      | _ =>
         let is_a := html && names [[97]] name in
         (* the element-specific result (before pseudo-content and fragment handling):
            inr tt = Nothing *)
